@@ -120,6 +120,15 @@ def bool_literal(t):
     return False
 
 
+def lone_operand(t):
+    """An and / or over a single operand that is not a truth value has no spelling in the text language
+    (the renderer writes the operand alone, which is a different program)."""
+    kids = [t[k] for k in ("a", "b") if k in t] + list(t.get("args", []))
+    if t["op"] in ("and", "or") and len(kids) == 1 and not well_typed(kids[0], True):
+        return True
+    return any(lone_operand(k) for k in kids)
+
+
 def _tree_vars(t):
     acc = set()
     _vars(t, acc)
@@ -131,7 +140,7 @@ def operand_models(tier, seed, meta, assoc_all=False):
     kinds: handle / integer / float / Boolean literal / compound, both orders): the tree as the
     objective, as one side of a constraint, or (logic trees) as an assertion."""
     out = []
-    for fam, nquick in (("d1", 500), ("d2num", 500), ("d2log", 300), ("assoc", 500)):
+    for fam, nquick in (("d1", 500), ("d2num", 500), ("d2log", 300), ("assoc", 500), ("idlog", 400)):
         cs, g, d = core.gen_cases(rewrite.SPEC_DIR, "ExprGen.tla", f"Gen_{fam}.cfg", "ex" + fam, workers=8)
         meta["operands:" + fam] = {"cases": len(cs), "gen_states": d, "gen_transitions": g}
         if tier == "quick" and fam == "assoc" and assoc_all:
@@ -153,7 +162,13 @@ def operand_models(tier, seed, meta, assoc_all=False):
         skipped = 0
         for pos, (i, c) in enumerate(cs):
             t = c["tree"]
-            if not well_typed(t) or bool_literal(t):
+            # programs the static typing refuses are judged by the weaker rule of DoorsTrace (a door that
+            # answers answers right); a rotating share of them, and all of family idlog, is kept
+            ill = not well_typed(t) or bool_literal(t)
+            if lone_operand(t):
+                skipped += 1
+                continue
+            if ill and fam != "idlog" and (i + seed) % (1 if tier == "thorough" else 4):
                 skipped += 1
                 continue
             xy = {"lhs": {"op": "add", "a": {"op": "var", "name": "x"}, "b": {"op": "var", "name": "y"}}, "cmp": "le", "rhs": _num(3), "assert": False, "name": ""}
@@ -186,6 +201,8 @@ def operand_models(tier, seed, meta, assoc_all=False):
                 _vars(c_["rhs"], used)
             m["dom"] = [copy.deepcopy(d_) for d_ in OPD_DOM if d_["name"] in used]
             m["id"] = f"O{fam}_{i}"
+            if ill:
+                m["illtyped"] = True
             out.append(m)
             if fam == "assoc" and assoc_all and m["cons"] and any(c_.get("assert") for c_ in m["cons"]):
                 # the grouping of a chain decides which assignments it admits: judge it under every direction
